@@ -659,6 +659,30 @@ def check(run, F, tier):
                         for t in f["locals"][1:f["argc"] + 1])
         if takes_str or "std::str::from_utf8" in calls or f.get("name") in ("clone", "default"):
             continue
+        # a private helper assembling the value from (length, bytes): fine when every caller hands it validated bytes -
+        # on each of the caller's paths that reach the call, a from_utf8(..) decided Ok precedes it, or the caller takes a str
+        if not f.get("pub") and f.get("kind") in ("Fn", "AssocFn"):
+            callers = [g for g in F.fns.values() if g is not f and f["path"] in conn.fn_refs(g)]
+            okc = bool(callers)
+            for g in callers:
+                g_str = any(("&str" in t or "std::string::String" in t or "AsRef<str>" in t or (t.startswith("impl ") and "str" in t))
+                            for t in g["locals"][1:g["argc"] + 1])
+                if g_str:
+                    continue
+                try:
+                    exg = explore.Explorer(F, inline_pred=lambda ex, callee, info: callee.get("kind") == "Closure")
+                    for p in exg.run(g["path"]):
+                        idx = [i for i, e in enumerate(p.effects) if e[0] == "call" and e[1] == f["path"]]
+                        if not idx:
+                            continue
+                        val = [e for e in p.effects[:idx[0]] if e[0] == "call" and e[1] == "std::str::from_utf8" and e[4][0] == "sym"
+                               and conn.possible(F, p, e[4][1], "std::result::Result") == {"Ok"}]
+                        if not val:
+                            okc = False
+                except explore.ExploreError:
+                    okc = False
+            if okc:
+                continue
         ctor_bad.append(f["path"])
     if ctor_bad:
         for pth in ctor_bad:
@@ -756,6 +780,12 @@ def classify_loop(F, f, head, body):
         for s in bm[i]["stmts"]:
             if s["k"] == "assign" and s["rv"]["k"] == "bin" and s["rv"]["op"] == "Div" and "const" in s["rv"]["b"] and s["rv"]["b"]["const"].get("bits", 0) > 1:
                 divs.append(s)
+            # the same step spelled as a right shift: x = x >> c, c >= 1
+            if s["k"] == "assign" and s["rv"]["k"] == "bin" and s["rv"]["op"] in ("Shr", "ShrUnchecked") and "const" in s["rv"]["b"] \
+                    and s["rv"]["b"]["const"].get("bits", 0) >= 1 and not s["lhs"]["p"]:
+                src = s["rv"]["a"].get("copy") or s["rv"]["a"].get("move")
+                if src is not None and src["l"] == s["lhs"]["l"] and not src["p"]:
+                    divs.append(s)
     if divs and cmps:
-        return ("cursor", "value divided by a constant > 1 each iteration and compared with zero")
+        return ("cursor", "value divided by a constant > 1 (or shifted right by a constant >= 1) each iteration and compared with zero")
     return ("unknown", "calls=%s" % [n.split("::")[-1] for n in names][:6])
